@@ -233,6 +233,11 @@ def run(tier, seed):
                  % (c, [e["cls"]["name"] for e in tr[:tr.index(ev)]], ev["cls"]["name"], dna.dec(ev["seq"]), ev["res"]["valid"],
                     dna.dec(ev["res"]["up"]), dna.dec(ev["res"]["down"]), ev["fresh"]["valid"],
                     "its own structure" if ev["cached"] == ev["cls"]["toks"] else "another pattern"))
+    # generic history fuzzer: live objects used again and again (wrap, query, rotate by 0, edit in place, assemble)
+    from .. import scenario
+    sc = scenario.run(rng, 20 if q else 200)
+    run.validate("scenario-typing", "Trace_Typing", sc["typing"], None, sigfn=lambda c, ev, tr: c + "|history",
+                 describe=lambda c, ev, tr: "%s: after a history on live objects, class %s on %s answered %s" % (c, ev["cls"]["name"], dna.dec(ev["seq"]), {k: v for k, v in ev["res"].items() if k in ("valid", "again", "qexc")}))
     return run.finish("TLC: every validation history of length <= %d over the class forest {G; P1,P2<G; Q<P1; V} x 5 records (exhaustive); "
                       "negative model (inherited cache lookup) refuted; S->I: every enumerated history replayed on a freshly built real "
                       "class tree (answer and cache slots compared); I->S: ordered pairs and random histories over the 85 kit classes, "
